@@ -41,16 +41,30 @@ async def _await(x):
     return await x
 
 
+class NotReplayable(Exception):
+    pass
+
+
 def clause_native(c: Contract, clause: str, args: Dict[str, Any], result: Any) -> Any:
     fn = c.cls.__dict__[clause]
     names = list(inspect.signature(fn).parameters)
+    if any(n.startswith("ghost_") for n in names):
+        raise NotReplayable(f"clause {clause} mentions ghost state; it has no native reading")
     env = dict(args)
     env["result"] = result
     return fn(**{n: env[n] for n in names})
 
 
-def replay_obligation(c: Contract, clause_or_kind: str, args: Dict[str, Any]) -> Tuple[bool, str]:
-    """True if the real code violates the contract on `args` (any clause), with a description"""
+def replay_obligation(c: Contract, clause_or_kind: str, args: Dict[str, Any]):
+    """(True, msg) if the real code violates the contract on `args`, (False, msg) if it satisfies every clause that has
+    a native reading, (None, msg) if nothing could be replayed"""
+    try:
+        return _replay(c, clause_or_kind, args)
+    except NotReplayable as e:
+        return None, str(e)
+
+
+def _replay(c: Contract, clause_or_kind: str, args: Dict[str, Any]):
     kind, val = run_native(c, args)
     if kind == "raise":
         cls_names = [k.__name__ for k in type(val).__mro__]
@@ -65,11 +79,17 @@ def replay_obligation(c: Contract, clause_or_kind: str, args: Dict[str, Any]) ->
     for k, cond in c.raises.items():
         if cond and not cond.startswith("may_") and clause_native(c, cond, args, None):
             return True, f"real code returns {val!r} although the contract demands {k}"
+    skipped = 0
     for p in c.posts:
         try:
             ok = clause_native(c, p, args, val)
+        except NotReplayable:
+            skipped += 1
+            continue
         except BaseException as e:  # noqa
             return True, f"clause {p} could not be evaluated natively on result {val!r}: {type(e).__name__}: {e}"
         if not ok:
             return True, f"real code returns {val!r}; clause {p} is false"
-    return False, f"real code returns {val!r}; all clauses hold"
+    if skipped == len(c.posts) and c.posts:
+        raise NotReplayable("no clause of this contract has a native reading")
+    return False, f"real code returns {val!r}; all natively readable clauses hold"
